@@ -92,6 +92,21 @@ HARNESSES.append(
     dict(name="dxlimit", src="dxlimit.c", funcs=["__get_dx_countlimit", "ext2fs_get_dx_countlimit"], checks="memsafe",
          unwind=3, unwindset=["main.0:2", "main.1:65", "main.2:2"], backends=["default"],
          bound="64-byte directory block, every byte symbolic"))
+def _readbuf():
+    """read_xattrs_from_buffer() on arbitrary entry bytes (source harness/C15/readbuf.c): an entry whose value does not lie inside the
+    value area (or overlaps the entry table) is rejected before any byte of it is read"""
+    p = _os.path.join(_os.path.dirname(_os.path.abspath(__file__)), "..", "C15", "spec.py")
+    sp = _ilu.spec_from_file_location("spec_C15_for_C06", p)
+    m = _ilu.module_from_spec(sp)
+    sp.loader.exec_module(m)
+    for h in m.HARNESSES:
+        if h["name"] == "readbuf":
+            d = dict(h)
+            d["src"] = "../C15/readbuf.c"
+            d["configs"] = [c for c in h["configs"] if c.get("_tier") != "thorough"][:2]
+            return [d]
+    raise RuntimeError("C15 readbuf harness missing")
+HARNESSES += _readbuf()
 HARNESSES += _e2undo("C06")   # the real main() of misc/e2undo.c (sources in harness/E2UNDO)
 
 MANIFEST = {
